@@ -153,8 +153,12 @@ type myFails struct {
 
 func (f *myFails) add(x myFailure) { f.mu.Lock(); f.list = append(f.list, x); f.mu.Unlock() }
 
+const myMixed = "integer-and-ciphertext-rows-under-one-announcement"
+
+func isIntType(typ string) bool { return typ == "int32" || typ == "int64" }
+
 func myFamily(typ string) string {
-	if typ == "int32" || typ == "int64" {
+	if isIntType(typ) {
 		return "int"
 	}
 	return "string-like"
@@ -265,7 +269,11 @@ func (w *myWorld) run(cs myCase) {
 	reader := myReaders[cs.Reader]
 	binaryProto := cs.Proto == "binary"
 	viol := func(class, failure, format string, a ...interface{}) {
-		w.fails.add(myFailure{Family: myFamily(c.Type), Proto: cs.Proto, Class: class, Failure: failure, Policy: c.policy(), Shape: cs.Shape,
+		shape := cs.Shape
+		if failure == myMixed {
+			class, shape = "unrevealable", "two-rows"
+		}
+		w.fails.add(myFailure{Family: myFamily(c.Type), Proto: cs.Proto, Class: class, Failure: failure, Policy: c.policy(), Shape: shape,
 			Msg: fmt.Sprintf(format, a...) + fmt.Sprintf(" [config %s, reader %s, stored value %s]", c.col().Name, cs.Reader, cs.Class), Case: cs})
 	}
 	// coarse class of the stored value under test (finding keys)
@@ -362,6 +370,9 @@ func (w *myWorld) run(cs myCase) {
 			f = "malformed-row"
 			if strings.Contains(res.Detail, "after the ERR packet") {
 				f = "packets-after-the-error"
+			} else if isIntType(c.Type) && binaryProto && c.policy() == "ciphertext" && strings.HasPrefix(cs.Shape, "two-rows") {
+				// one row carries a little-endian integer, the other raw bytes, under one announcement
+				f = myMixed
 			}
 		}
 		bad(f, "%s", res.Detail)
